@@ -218,10 +218,10 @@ pub fn gen_c15(tier: Tier, seed: u64, em: &mut Emitter) {
                 }
                 let syms: Vec<Vec<i64>> = if kind == 0 {
                     vec![vec![0, 176 + c1, 1, 5], vec![0, 176 + c1, 33, 6], vec![0, 176 + c2, 1, 7],
-                         vec![0, 176 + c2, 33, 8], vec![0, 248, 0, 0]]
+                         vec![0, 176 + c2, 33, 8], vec![0, 240 + c1 % 8, 33, 9]]
                 } else {
                     let mut s = vec![vec![0, 176 + c1, 6, 5], vec![0, 176 + c1, 38, 6], vec![0, 176 + c2, 6, 7],
-                         vec![0, 176 + c2, 96, 8], vec![0, 176 + c2, 99, 3], vec![0, 248, 0, 0]];
+                         vec![0, 176 + c2, 96, 8], vec![0, 176 + c2, 99, 3], vec![0, 240 + c1 % 4, 6, 9]];
                     if kind == 2 {
                         s.push(vec![3, c1, 0, 0]);
                         s.push(vec![4, 5, 0, 0]);
